@@ -68,6 +68,12 @@ type wRes struct {
 	HS   wHS    `json:"hs"`
 	Ents []wEnt `json:"ents"`
 }
+type wLife struct {
+	On   bool   `json:"on"`
+	Ents []wEnt `json:"ents"`
+	Err  string `json:"err"`
+	Res  wRes   `json:"res"`
+}
 type wValid struct {
 	Err   string  `json:"err"`
 	Snaps []wSnap `json:"snaps"`
@@ -123,7 +129,8 @@ type walDrv struct {
 	where                                              string
 	typeFlips, misname, entiLost, procOnly, hole0      bool
 	purgedRecs, nPurged, nReleases, nSyncs             int
-	segFirst                                           bool
+	segFirst, lifeAll                                  bool
+	lifeX, nLives                                      int
 	nConcBatches                                       int
 	maxEntBytes                                        int
 	lastEnt, maxMark                                   int
@@ -548,7 +555,83 @@ func (d *walDrv) emitImage(kind string, off int64, segs []*wSeg, tailImg []byte,
 	ver := d.verify(d.imgDir, snap)
 	res, rep, _ := d.reopen(d.imgDir, snap, false)
 	res2 := res
-	if res.Err == "" && (rep || d.rng.Intn(4) == 0) {
+	life := wLife{Ents: []wEnt{}, Res: wRes{Ents: []wEnt{}}}
+	damaged := kind == "trunc" || kind == "zfill" || kind == "sector"
+	wantLife := res.Err == "" && ((damaged && (d.lifeAll || d.rng.Intn(2) == 0)) || (!damaged && d.rng.Intn(6) == 0))
+	if wantLife {
+		// a second life: reopen, go on saving (byte-identical re-sends of entries the crash took,
+		// fewer of them and without a hard state, or fresh entries), close, reopen once more
+		r2, _, ww := d.reopen(d.imgDir, snap, true)
+		res2 = r2
+		if r2.Err == "" && ww != nil {
+			var ents []raftpb.Entry
+			if damaged && tailImg != nil {
+				base := d.purgedRecs
+				for i, sg := range segs {
+					if i < ti {
+						base += len(sg.frames)
+					}
+				}
+				var lost []raftpb.Entry
+				for k := n - base; k >= 0 && k < len(segs[ti].frames); k++ {
+					f := segs[ti].frames[k]
+					rb, _ := wDecodeFrameSize(int64(binary.LittleEndian.Uint64(segs[ti].data[f.off:])))
+					var rec walpb.Record
+					if rec.Unmarshal(segs[ti].data[f.off+8:f.off+8+rb]) != nil || rec.Type != 2 {
+						break
+					}
+					var e raftpb.Entry
+					if e.Unmarshal(rec.Data) != nil {
+						break
+					}
+					lost = append(lost, e)
+				}
+				if len(lost) >= 2 && d.rng.Intn(3) > 0 {
+					ents = lost[:1+d.rng.Intn(len(lost)-1)]
+				} else if len(lost) == 1 && d.rng.Intn(2) == 0 {
+					ents = lost
+				}
+			}
+			if ents == nil {
+				start := snap.I + len(r2.Ents) + 1
+				term := wMax(r2.HS.T, 1)
+				if k := len(r2.Ents); k > 0 && r2.Ents[k-1].T > term {
+					term = r2.Ents[k-1].T
+				}
+				for j := 0; j < 1+d.rng.Intn(2); j++ {
+					d.lifeX++
+					ents = append(ents, d.entry(wEnt{start + j, term, 1<<20 + d.lifeX}, 20+d.rng.Intn(300)))
+				}
+			}
+			for _, e := range ents {
+				x, ok := d.byHash[sha1.Sum(e.Data)]
+				if !ok {
+					x = -1
+				}
+				life.Ents = append(life.Ents, wEnt{int(e.Index), int(e.Term), x})
+			}
+			func() {
+				defer func() {
+					if e := recover(); e != nil {
+						life.Err = "PANIC " + fmt.Sprint(e)
+					}
+				}()
+				wal.SegmentSizeBytes = 1 << 40 // no roll inside the second life
+				err := ww.Save(raftpb.HardState{}, ents)
+				wal.SegmentSizeBytes = d.segSize
+				if err != nil {
+					life.Err = wErrKind(err)
+				}
+				ww.Close()
+			}()
+			wal.SegmentSizeBytes = d.segSize
+			life.On = true
+			life.Res, _, _ = d.reopen(d.imgDir, snap, false)
+			d.nLives++
+		} else if ww != nil {
+			ww.Close()
+		}
+	} else if res.Err == "" && (rep || d.rng.Intn(4) == 0) {
 		res2, _, _ = d.reopen(d.imgDir, snap, false)
 	}
 	mk := kind
@@ -561,9 +644,9 @@ func (d *walDrv) emitImage(kind string, off int64, segs []*wSeg, tailImg []byte,
 	if kind == "flip" || kind == "hole" {
 		where = d.where
 	}
-	pan := strings.HasPrefix(res.Err, "PANIC") || strings.HasPrefix(res2.Err, "PANIC") || strings.HasPrefix(v.Err, "PANIC") || strings.HasPrefix(ver, "PANIC")
+	pan := strings.HasPrefix(life.Err, "PANIC") || strings.HasPrefix(life.Res.Err, "PANIC") || strings.HasPrefix(res.Err, "PANIC") || strings.HasPrefix(res2.Err, "PANIC") || strings.HasPrefix(v.Err, "PANIC") || strings.HasPrefix(ver, "PANIC")
 	d.tw.Emit(trace.M{"ev": "image", "panic": pan, "kind": mk, "how": kind, "hasmarker": hasMarker, "where": where, "segfirst": d.segFirst || (kind == "hole" && flipRec == d.purgedRecs+2), "dur": d.durCount(segs), "off": off, "n": n, "tail": tail, "flip": flipRec,
-		"snap": snap, "valid": v, "verify": ver, "res": res, "rep": rep, "res2": res2})
+		"snap": snap, "valid": v, "verify": ver, "res": res, "rep": rep, "res2": res2, "life": life})
 	d.nImages++
 	d.byKind[kind]++
 	d.byTail[tail]++
@@ -833,7 +916,25 @@ func (d *walDrv) post(ev trace.M, err error) {
 	ev["err"] = wErrKind(err)
 	ev["nrec"] = d.purgedRecs + wNrec(segs)
 	ev["dur"] = d.purgedRecs + d.durCount(segs)
+	ev["names"] = wNames(segs)
 	d.tw.Emit(ev)
+}
+
+type wName struct {
+	S int `json:"s"`
+	I int `json:"i"`
+}
+
+// the <seq>-<index> pairs of the segment files that exist
+func wNames(segs []*wSeg) []wName {
+	out := []wName{}
+	for _, s := range segs {
+		var seq, idx uint64
+		if _, err := fmt.Sscanf(s.name, "%016x-%016x.wal", &seq, &idx); err == nil {
+			out = append(out, wName{int(seq), int(idx)})
+		}
+	}
+	return out
 }
 
 // one pass of the real background purge (fileutil.PurgeFile): the stop channel is already
@@ -1087,7 +1188,7 @@ func (d *walDrv) concHistory() {
 				}
 				pendSnap = pendSnap[1:]
 				seen++
-				d.tw.Emit(trace.M{"ev": "snap", "i": mk.I, "t": mk.T, "err": "", "nrec": seen, "dur": durAt(fr[seen-1].end)})
+				d.tw.Emit(trace.M{"ev": "snap", "i": mk.I, "t": mk.T, "err": "", "nrec": seen, "dur": durAt(fr[seen-1].end), "names": wNames(segs)})
 				continue
 			}
 			if len(pendSave) == 0 {
@@ -1108,7 +1209,7 @@ func (d *walDrv) concHistory() {
 			if ents == nil {
 				ents = []wEnt{}
 			}
-			d.tw.Emit(trace.M{"ev": "save", "hs": c.hs, "ents": ents, "cut": false, "err": "", "nrec": seen, "dur": durAt(fr[seen-1].end)})
+			d.tw.Emit(trace.M{"ev": "save", "hs": c.hs, "ents": ents, "cut": false, "err": "", "nrec": seen, "dur": durAt(fr[seen-1].end), "names": wNames(segs)})
 		}
 		return true
 	}
@@ -1437,6 +1538,23 @@ func wPurgeHistory(rng *rand.Rand) []wCall {
 				t = wMax(m.last.T, 1)
 			}
 			calls = append(calls, m.snap(i, t))
+			if rng.Intn(3) == 0 {
+				// a marker behind the log, then a Save without entries that rolls the segment,
+				// then a later marker in the new segment (segment names must not move backwards)
+				kind := "term"
+				if m.last.T >= 5 {
+					kind = "vote"
+				}
+				calls = append(calls, m.save(kind, m.enti+1, 0, true, sz))
+				if m.last.C > m.maxMarker {
+					j := m.maxMarker + 1 + rng.Intn(m.last.C-m.maxMarker)
+					tj, ok := m.termOf[j]
+					if !ok {
+						tj = wMax(m.last.T, 1)
+					}
+					calls = append(calls, m.snap(j, tj))
+				}
+			}
 		}
 		if m.maxMarker > 0 && m.maxMarker <= m.last.C {
 			calls = append(calls, wCall{kind: "sync"}, wCall{kind: "release", rel: m.maxMarker})
@@ -1581,6 +1699,8 @@ func walsim(args []string) error {
 	nsizes := fs.Int("sizes", 0, "number of scripted size-threshold histories (default segment size, process-crash images only)")
 	sizeVariants := fs.Int("sizevariants", 1, "1: one entry > 16 MB; 2: also a history that fills the 64 MB segment; 3: also an entry just below 100 MB")
 	nconc := fs.Int("conc", 0, "number of histories in which Save and SaveSnapshot/ReleaseLockTo run in two goroutines")
+	lifeAll := fs.Bool("lifeall", false, "a second life (reopen, save on, reopen) after every damaged image, not every second one")
+	bigBatch := fs.Bool("bigbatch", false, "scripted histories with Saves of 8..21 entries that span several pages (torn multi-page batches)")
 	purgeStage := fs.Bool("purge", false, "scripted histories around wal.Sync / ReleaseLockTo / the background purge / restarts")
 	hole0 := fs.Bool("hole0", false, "isolate stage of C05-crc-chain-vacuous-after-first-crc: only images whose first segment keeps nothing but its leading crc record")
 	typeFlips := fs.Bool("typeflips", false, "only bit flips in the record-type bytes (isolate stage of C05-record-type-unprotected)")
@@ -1600,7 +1720,7 @@ func walsim(args []string) error {
 		return err
 	}
 	d := &walDrv{tw: tw, scratch: scratch, byKind: map[string]int{}, byTail: map[string]int{}, byOutcome: map[string]int{},
-		maxImgPerCall: *maxImg, typeFlips: *typeFlips, misname: *misname, hole0: *hole0}
+		maxImgPerCall: *maxImg, typeFlips: *typeFlips, misname: *misname, hole0: *hole0, lifeAll: *lifeAll}
 	k := 0
 	nsim := 0
 	if *sim != "" {
@@ -1677,6 +1797,21 @@ func walsim(args []string) error {
 			calls = append(calls, m.snap(m.enti, wMax(m.last.T, 1)))
 			calls = append(calls, m.save("commit", m.enti+1, 1, false, sz))
 		}
+		if *bigBatch {
+			// batches of many entries that span several 4 KB pages inside one roomy segment
+			m := &wMirror{termOf: map[int]int{}}
+			sz := func() int { return 250 + d.rng.Intn(700) }
+			calls = []wCall{{kind: "create", opt: d.rng.Intn(2) == 0}}
+			calls = append(calls, m.save("term", 1, 2, false, sz))
+			for r := 2 + d.rng.Intn(2); r > 0; r-- {
+				kind := []string{"zero", "commit", "term"}[d.rng.Intn(3)]
+				calls = append(calls, m.save(kind, m.enti+1, 8+d.rng.Intn(14), false, sz))
+				if d.rng.Intn(2) == 0 {
+					calls = append(calls, m.save("commit", m.enti+1, 1+d.rng.Intn(2), false, sz))
+				}
+			}
+			d.segSize = 96 * 1024
+		}
 		if *purgeStage {
 			calls = wPurgeHistory(d.rng)
 			d.segSize = int64(1024 * (1 + d.rng.Intn(3)))
@@ -1708,6 +1843,6 @@ func walsim(args []string) error {
 	tw.Close()
 	summary(map[string]interface{}{"driver": "walsim", "part": *part, "histories": d.nHist, "sim_histories": nsim,
 		"calls": d.nCalls, "cuts": d.nCuts, "restarts": d.nRestarts, "images": d.nImages, "by_kind": d.byKind,
-		"by_tail": d.byTail, "by_outcome": d.byOutcome, "repaired": d.nRepaired, "big_entries": d.nBigEnts, "segments_purged": d.nPurged, "concurrent_batches": d.nConcBatches, "releases": d.nReleases, "syncs": d.nSyncs, "max_entry_bytes": d.maxEntBytes, "events": tw.N})
+		"by_tail": d.byTail, "by_outcome": d.byOutcome, "repaired": d.nRepaired, "big_entries": d.nBigEnts, "segments_purged": d.nPurged, "second_lives": d.nLives, "concurrent_batches": d.nConcBatches, "releases": d.nReleases, "syncs": d.nSyncs, "max_entry_bytes": d.maxEntBytes, "events": tw.N})
 	return nil
 }
